@@ -495,16 +495,33 @@ def run_platform(case):
                 obj = cm.request(op[1], op[2], loose=op[3])
                 if obj is not None:
                     granted += 1
+                    if len(cm.matched) != before + 1 or cm.matched[-1][1] is not obj:
+                        return bad("platform-twice", "request(%r,%r) returned an object that this call did not take from the pool | %r" %
+                                   (op[1], op[2], hist), key="platform-regrant")
                     res = cm.matched[-1][0]
                     if res[0] != op[1] or (op[2] is not None and res[1] != op[2]):
                         return bad("platform-match", "request(%r,%r) granted resource %r:%r | %r" % (op[1], op[2], res[0], res[1], hist),
                                    key="platform-match")
                 elif len(cm.matched) != before:
                     return bad("platform-none", "request returned None but matched grew", key="platform-none")
-            elif op[0] == "request_all":
-                cm.request_all(op[1])
-            elif op[0] == "request_remaining":
-                cm.request_remaining(op[1])
+            elif op[0] in ("request_all", "request_remaining"):
+                before = len(cm.matched)
+                got = cm.request_all(op[1]) if op[0] == "request_all" else cm.request_remaining(op[1])
+                # what the caller receives must be exactly what this call took from the pool: a signal that was
+                # granted earlier (to someone else) must not be handed out again
+                new = set()
+                for _, o in cm.matched[before:]:
+                    new |= {id(f) for f in (o.flatten() if isinstance(o, Record) else [o])}
+                ret = set()
+                for o in getattr(got, "l", [got]):
+                    ret |= {id(f) for f in (o.flatten() if isinstance(o, Record) else [o])}
+                if ret != new:
+                    return bad("platform-twice", "%s(%r) returned %d signal(s), %d of them not taken from the pool by this call (granted "
+                               "before) | %r" % (op[0], op[1], len(ret), len(ret - new), hist), key="platform-regrant")
+                if any(r[0] != op[1] for r, _ in cm.matched[before:]):
+                    return bad("platform-match", "%s(%r) granted %r | %r" % (op[0], op[1], [(r[0], r[1]) for r, _ in cm.matched[before:]], hist),
+                               key="platform-match")
+                granted += len(cm.matched) - before
             elif op[0] == "lookup":
                 name = op[1] + (":" + op[4] if op[4] else "")
                 obj = cm.lookup_request(name, op[2], loose=op[3])
